@@ -722,17 +722,40 @@ theorem finite_fails_on_zero_variance :
     (Kde.new F [some 1] (some 1)).pdf F (some 1) = none := by
   decide +kernel
 
-/-- **C14.reported_finite** — what `score_psms` stores is finite as soon as the PEP is a finite
-    number `≥ 0`: `log10` of a positive number is finite, `log10 0 = −∞` is replaced by the floor. -/
-theorem reported_finite {β : Type} (log10 : Rat → β) (isInf isFinite : β → Bool) (floorVal : β)
-    (hpos : ∀ x : Rat, 0 < x → isFinite (log10 x) = true)
-    (hzero : isInf (log10 0) = true) (hfloor : isFinite floorVal = true)
-    (hexcl : ∀ y, isFinite y = true → isInf y = false)
-    (pep : Rat) (h : 0 ≤ pep) : isFinite (reported log10 isInf floorVal pep) = true := by
+/-- **C14.reported_spec** — the value `score_psms` stores is the cast of the `log10` of the
+    (double-precision) PEP, and the `-324` floor is used exactly when the PEP is `0`: provided the
+    cast `log10` of every positive number is not infinite (true for `f64 → f32`: `log10` of a positive
+    double lies in `[-323.4, 308.3]`) and that of `0` is. A code that casts the PEP first and takes the
+    `log10` afterwards does not satisfy the first hypothesis (positive doubles below `1.4e-45` cast to 0). -/
+theorem reported_spec {β : Type} (log10 : Rat → Rat) (cast : Rat → β) (isInf : β → Bool) (floorVal : β)
+    (hpos : ∀ x : Rat, 0 < x → isInf (cast (log10 x)) = false)
+    (hzero : isInf (cast (log10 0)) = true)
+    (pep : Rat) (h : 0 ≤ pep) :
+    reported log10 cast isInf floorVal pep = if pep = 0 then floorVal else cast (log10 pep) := by
   unfold reported
   rcases lt_or_eq_of_le h with hlt | heq
-  · simp only [hexcl _ (hpos pep hlt)]; exact hpos pep hlt
-  · rw [← heq]; simp [hzero, hfloor]
+  · simp [hpos pep hlt, ne_of_gt hlt]
+  · subst heq; simp [hzero]
+
+/-- **C14.reported_finite** — what `score_psms` stores is finite as soon as the PEP is a finite
+    number `≥ 0`: `log10` of a positive number is finite, `log10 0 = −∞` is replaced by the floor. -/
+theorem reported_finite {β : Type} (log10 : Rat → Rat) (cast : Rat → β) (isInf isFinite : β → Bool)
+    (floorVal : β)
+    (hpos : ∀ x : Rat, 0 < x → isFinite (cast (log10 x)) = true)
+    (hzero : isInf (cast (log10 0)) = true) (hfloor : isFinite floorVal = true)
+    (hexcl : ∀ y, isFinite y = true → isInf y = false)
+    (pep : Rat) (h : 0 ≤ pep) : isFinite (reported log10 cast isInf floorVal pep) = true := by
+  rw [reported_spec log10 cast isInf floorVal (fun x hx => hexcl _ (hpos x hx)) hzero pep h]
+  split
+  · exact hfloor
+  · next hne => exact hpos pep (lt_of_le_of_ne h (Ne.symm hne))
+
+/-- non-vacuity of `reported_spec`: a toy `log10` (`x ↦ x − 1`), `none` as the infinite value -/
+example : reported (fun x : Rat => x - 1) (fun x => if x = -1 then none else some x)
+    (fun o => o.isNone) (some (-324)) (1/2) = some (-1/2) ∧
+    reported (fun x : Rat => x - 1) (fun x => if x = -1 then none else some x)
+    (fun o => o.isNone) (some (-324)) 0 = some (-324) := by
+  constructor <;> decide +kernel
 
 /-- the toy functions of the non-vacuity example: `sqrt := id`, `powf := 1`, `exp := 1`, `π := 3` -/
 def toyFns : Fns XQ := { exp := fun _ => some 1, sqrt := fun x => x, powf := fun _ _ => some 1, pi := some 3 }
